@@ -188,6 +188,18 @@ def run(chk, build, replay=None):
     if chk.tier == "thorough":
         triples = diffexec.ALL_CONFIGS
     propkit.oracle_exec(chk, progs, triples, what="the program behaves differently because of the identifier it uses", reject_ok=False)
+    # the same spelling chosen for variables of DIFFERENT scopes (alpha-renaming clause): a module global read / rebound several
+    # function levels below a function that owns a variable of that spelling, the functions in between silent about it
+    if not replayed:
+        import random as _random
+        from harness import gen_scope
+        chains = [gen_scope.render(t) for t in gen_scope.chain_trees()]
+        if chk.tier == "quick":
+            chains = _random.Random(chk.seed * 13 + 9).sample(chains, 260)
+        chains = [c for c in chains if gen_scope.accepted(c)]
+        propkit.oracle_exec(chk, chains, triples, what="the program behaves differently because two of its scopes spell a variable "
+                            "the same way", reject_ok=False)
+        chk.coverage.setdefault("input_distribution_extra", {})["same_spelling_scope_chains"] = len(chains)
     bad_audit = 0
     for p in progs:
         for chain in (False, True):
